@@ -101,6 +101,7 @@ fn shape_bytes(req: &WireReq, sh: &Shape) -> (Vec<u8>, Vec<u8>) {
 #[allow(clippy::too_many_arguments)]
 fn server_scenario(rep: &mut Report, pool: &Pool, res: &Resources, req: &WireReq, sh: &Shape, nfds: usize, on_body: bool, negotiated: bool, second: bool, teardown: u8, keep: bool) {
     let before = open_fds();
+    crate::crash::set_case(&format!("{{\"property\":\"C09\",\"signature\":\"C09:process-killed-by-signal\",\"what\":\"the process died (e.g. std's I/O-safety abort on a double close) in this scenario\",\"case\":{{\"check\":\"C09\",\"part\":\"server\",\"req\":\"{}\",\"shape\":\"{:?}\",\"nfds\":{},\"teardown\":{}}}}}", req.name(), sh, nfds, teardown));
     let case = json!({"check":"C09","part":"server","req":req.name(),"shape":format!("{sh:?}"),"nfds":nfds,"on_body":on_body,"negotiated":negotiated,"second":second,"teardown":teardown,"handler_keeps_files":keep});
     let held: Vec<(u64, u64)>;
     let delivered: Vec<(u64, u64)>;
@@ -306,6 +307,7 @@ fn request_server_scenarios(rep: &mut Report, pool: &Pool, res: &Resources) {
 
 pub fn run(rep: &mut Report) {
     let thorough = rep.is_thorough();
+    crate::crash::install("C09");
     coop::enable();
     let res = Resources::new();
     let pool = Pool::new(41);
